@@ -56,6 +56,17 @@ func runChildren(cases []Case, workers int, perCaseTimeout time.Duration) []Resu
 			for len(todo) > 0 {
 				n, crashedAt, stderr := runOneChild(cases, todo, results, done, perCaseTimeout)
 				_ = n
+				if crashedAt < 0 && n > 0 {
+					// died after delivering its last result (a bubble that could not be left after a reported panic): go on with the rest
+					var rest []int
+					for _, i := range todo {
+						if !done[i] {
+							rest = append(rest, i)
+						}
+					}
+					todo = rest
+					continue
+				}
 				if crashedAt < 0 {
 					// child ended without finishing and without naming a case: give up on the rest
 					rest := todo
@@ -70,8 +81,10 @@ func runChildren(cases []Case, workers int, perCaseTimeout time.Duration) []Resu
 				if crashedAt == len(cases) { // all done
 					return
 				}
-				results[crashedAt] = Result{Idx: crashedAt, Panic: "process died: " + crashSummary(stderr)}
-				done[crashedAt] = true
+				if !done[crashedAt] {
+					results[crashedAt] = Result{Idx: crashedAt, Panic: "process died: " + crashSummary(stderr)}
+					done[crashedAt] = true
+				}
 				var rest []int
 				for _, i := range todo {
 					if !done[i] {
@@ -107,7 +120,7 @@ func crashSummary(stderr string) string {
 // the index of the case that was running when the child died, or -1.
 func runOneChild(cases []Case, todo []int, results []Result, done []bool, perCase time.Duration) (finished int, crashedAt int, stderr string) {
 	cmd := exec.Command(os.Args[0])
-	cmd.Env = append(os.Environ(), "C08_CHILD=1")
+	cmd.Env = append(os.Environ(), "C08_CHILD=1", "GOMAXPROCS="+childProcs(cases[todo[0]].Kind))
 	var in bytes.Buffer
 	for _, i := range todo {
 		b, _ := json.Marshal(IndexedCase{Idx: i, Case: cases[i]})
@@ -160,7 +173,9 @@ loop:
 				results[r.Idx] = r
 				done[r.Idx] = true
 				finished++
-				current = -1
+				if r.Panic == "" {
+					current = -1
+				}
 			}
 		case <-timer.C:
 			hung = true
@@ -179,6 +194,14 @@ loop:
 		return finished, len(cases), stderr
 	}
 	return finished, current, stderr
+}
+
+// childProcs: sequential histories need no parallelism inside a child (the pool supplies it); races do.
+func childProcs(kind string) string {
+	if kind == "seq" {
+		return "2"
+	}
+	return "4"
 }
 
 // ---------- engines ----------
@@ -249,8 +272,23 @@ func evalSeq(cases []Case, o *common.Options, rep *common.Report, probeKeys map[
 			if len(r.Events) > 0 && len(r.Events) <= len(c.Ops) {
 				at = strings.Fields(c.Ops[len(r.Events)-1])[0]
 			}
-			fail("crash:"+at, fmt.Sprintf("after %d events: %s", len(r.Events), r.Panic))
+			fail("crash:"+at, fmt.Sprintf("event %d (%s): %s", len(r.Events), at, r.Panic))
 			reproduced = pk == "crash:"+at
+			// correspondence: the model must show the same events and then a fault at the same event
+			if mo != nil {
+				ok := true
+				for j, e := range r.Events {
+					if il := e.Res + ";" + e.Obs.dump(universe(c.PSKLen)); il != mo[j] {
+						rep.Diverge(common.Divergence{Engine: "cred", Case: c, Impl: il, Model: mo[j], Note: fmt.Sprintf("event %d: %s", j, e.Line)})
+						ok = false
+						break
+					}
+				}
+				if j := len(r.Events); ok && (j >= len(mo) || !strings.HasPrefix(mo[j], "panic;")) {
+					rep.Diverge(common.Divergence{Engine: "cred", Case: c, Impl: "panic: " + r.Panic, Model: mo[min(j, len(mo)-1)], Note: fmt.Sprintf("event %d: the implementation panicked, the model did not", j)})
+				}
+				rep.TracesValidated++
+			}
 		default:
 			// oracle
 			or := &Oracle{}
@@ -433,7 +471,7 @@ func evalHammers(cases []Case, rep *common.Report, probe bool) {
 	}
 }
 
-// directed probes of the F6 witnesses (and of registration on a zero-byte store file)
+// directed probes: the F6 witnesses, and registration on a zero-byte store file followed by an add
 func probes(pskLen int) ([]Case, map[int]string) {
 	k := universe(pskLen)
 	cs := []Case{
@@ -442,7 +480,8 @@ func probes(pskLen int) ([]Case, map[int]string) {
 		{Kind: "seq", PSKLen: pskLen, TCP: true, UDP: true, Init: mkDoc([]DocEntry{{"a", k[0]}, {"b", k[1]}}),
 			Ops: []string{"update b " + k[0].String(), "tick", "edit J:", "reload"}},
 	}
-	return cs, map[int]string{0: "shared-key:add", 1: "shared-key:update"}
+	cs = append(cs, Case{Kind: "seq", PSKLen: pskLen, TCP: true, UDP: true, Init: "E", Ops: []string{"add b " + k[3].String(), "tick"}})
+	return cs, map[int]string{0: "shared-key:add", 1: "shared-key:update", 2: "crash:add"}
 }
 
 func parentMain() {
@@ -452,7 +491,7 @@ func parentMain() {
 	rep.Rule = "engine cred: histories of <= 12 events (add/update/delete/reload/external edit/debounce tick) over names {a,b,c,d,\"\"} x 4 keys (+ a wrong-size key), " +
 		"PSK length 16|32, TCP-only|UDP-only|both, initial store of 0..3 users or an invalid one; after every event Credentials(), LookupUser and a real TCP handshake / UDP session open per key, and the file; " +
 		"non-trivial = at least one acknowledged and one refused event; distinct by (configuration, history). " +
-		"engine conc: 2-3 operations on the same user/key/file released together (12 repetitions each) compared at quiescence with all interleavings of the model's atomic segments; " +
+		"engine conc: 2-3 operations on the same user/key/file released together (8 repetitions each) compared at quiescence with all interleavings of the model's atomic segments; " +
 		"non-trivial = more than one possible or observed outcome; plus 5 hammer templates (lookup-level oracle)"
 	if err := selfCheckDocText(); err != nil {
 		fmt.Fprintln(os.Stderr, "corr_c08:", err)
@@ -484,7 +523,11 @@ func parentMain() {
 				err = evalSeq(pc, o, rep, keys)
 			}
 		}
-		n := o.Budget(2500, 50000)
+		only := os.Getenv("C08_ONLY") // debugging aid: seq | race | hammer
+		n := o.Budget(1500, 40000)
+		if only != "" && only != "seq" {
+			n = 0
+		}
 		var cases []Case
 		for i := 0; i < n && err == nil; i++ {
 			cases = append(cases, genSeq(r.Fork(uint64(i)), 12))
@@ -493,16 +536,16 @@ func parentMain() {
 				cases = cases[:0]
 			}
 		}
-		if err == nil {
-			nr := o.Budget(300, 6000)
+		if err == nil && (only == "" || only == "race") {
+			nr := o.Budget(200, 5000)
 			var rc []Case
 			for i := 0; i < nr; i++ {
 				rc = append(rc, genRace(r.Fork(uint64(1_000_000+i))))
 			}
 			err = evalRace(rc, o, rep)
 		}
-		if err == nil {
-			reps := o.Budget(20000, 300000)
+		if err == nil && (only == "" || only == "hammer") {
+			reps := o.Budget(10000, 200000)
 			evalHammers(hammers(common.Pick(r, []int{16, 32}), reps), rep, true)
 		}
 	}
